@@ -453,8 +453,15 @@ func (ch *Chain) Exec(e M) Outcome {
 		if !r.OK {
 			return fail(r)
 		}
-		info := absx.Map(e["info"])
-		return Outcome{OK: true, Resp: M{"id": info["id"], "addr": info["addr"], "chain": info["chain"], "client": info["client"]}}
+		get := func(k string) string { v, _ := attr(r.Events, opchildtypes.EventTypeSetBridgeInfo, k); return v }
+		if _, n := attr(r.Events, opchildtypes.EventTypeSetBridgeInfo, opchildtypes.AttributeKeyBridgeId); n != 1 {
+			return Outcome{OK: true, Resp: M{"id": fmt.Sprintf("?%d events", n)}}
+		}
+		addr := get(opchildtypes.AttributeKeyBridgeAddr) // as emitted; the fixture spells bridge address X as "bridge-addr-X"
+		if len(addr) > len("bridge-addr-") && addr[:len("bridge-addr-")] == "bridge-addr-" {
+			addr = addr[len("bridge-addr-"):]
+		}
+		return Outcome{OK: true, Resp: M{"id": atoi(get(opchildtypes.AttributeKeyBridgeId)), "addr": addr, "chain": get(opchildtypes.AttributeKeyL1ChainId), "client": get(opchildtypes.AttributeKeyL1ClientId)}}
 	case "UpdateParams", "SpendFeePool":
 		r := Deliver(f, ch.Ctx, ch.toMsg(e))
 		if !r.OK {
@@ -472,7 +479,12 @@ func (ch *Chain) Exec(e M) Outcome {
 		if !r.OK {
 			return fail(r)
 		}
-		return Outcome{OK: true, Resp: M{"op": absx.Str(e["op"])}}
+		evType := map[string]string{"AddValidator": opchildtypes.EventTypeAddValidator, "RemoveValidator": opchildtypes.EventTypeRemoveValidator}[ty]
+		v, n := attr(r.Events, evType, opchildtypes.AttributeKeyValidator)
+		if n != 1 {
+			return Outcome{OK: true, Resp: M{"op": fmt.Sprintf("?%d events", n)}}
+		}
+		return Outcome{OK: true, Resp: M{"op": ch.opName(v)}} // the operator named by the emitted event
 	case "ExecuteMessages":
 		var inner []sdk.Msg
 		for _, m := range absx.List(e["msgs"]) {
